@@ -101,6 +101,42 @@ def _infeasible_fallthrough(run, f):
         return rv == {2, 3} and vals == {2, 3}
 
 
+def _n_values(prog):
+    nf = prog.functions.get('super_pose:SMPose.N')
+    if nf is None:
+        return None
+    rv = set()
+    for r in own_returns(nf.node):
+        if isinstance(r.value, ast.Constant):
+            rv.add(r.value.value)
+        else:
+            return None
+    return rv
+
+
+def _infeasible_by_facts(run, f, fs):
+    """The point whose must-facts are fs cannot be reached: the facts exclude every value self.N can take, or every concrete
+    pose class name (class model)."""
+    prog = run.prog
+    smp = prog.classes.get('SMPose')
+    if smp is None or f.cls is None or smp not in f.cls.mro:
+        return False
+    not_n, not_name = set(), set()
+    for fc in fs:
+        t = fc[2].ast
+        if fc[1] or not (isinstance(t, ast.Compare) and len(t.ops) == 1 and isinstance(t.ops[0], ast.Eq) and isinstance(t.comparators[0], ast.Constant)):
+            continue
+        if ast.unparse(t.left) == '%s.N' % f.selfname:
+            not_n.add(t.comparators[0].value)
+        elif ast.unparse(t.left) == 'type(%s).__name__' % f.selfname:
+            not_name.add(t.comparators[0].value)
+    rv = _n_values(prog)
+    if rv and rv <= not_n:
+        return True
+    names = {c.name for c in prog.subclasses(smp, strict=True)}
+    return bool(names) and names <= not_name
+
+
 def check_a(run, f, rule='R2a'):
     if is_generator(f.node):
         return
@@ -134,10 +170,18 @@ def check_a(run, f, rule='R2a'):
                     conds.append(('not ' if not l[1] else '') + ast.unparse(l[0])[:80])
             bad.append(('falls off the end (implicit None)' +
                         (' when ' + ' / '.join(conds) if conds else ''), preds[0].ast if preds else f.node))
+    facts = None
     for r in rets:
         if is_none_value(r.value):
             n = cfg.node_of(r)
             if n is not None and n.id in reach:
+                if facts is None:
+                    from ..cfg import must_facts
+                    facts = must_facts(cfg)
+                if _infeasible_by_facts(run, f, facts.get(n.id, frozenset())):
+                    run.holds(rule, subj, 'return None on an excluded case', 'the guards on every path to this return exclude every value of N / '
+                              'every concrete pose class (class model): not reachable', f=f, node=r)
+                    continue
                 bad.append(('explicit return of None', r))
     if bad:
         for msg, node in bad:
